@@ -137,6 +137,13 @@ def differential_obligations(prop, tier, seed):
             for su in list(suites):
                 futs[su + "@no-prefetch-feature"] = ex.submit(replay_search.run_suite, su, secs, seed, True)
             suites = suites + [su + "@no-prefetch-feature" for su in suites]
+        if prop == "C10":
+            # C10 speaks of builds with and without debug assertions: the same suites on a plain release build
+            # (no overflow checks, no debug assertions); a panic-only difference shows in the first kind, a silently
+            # wrong value guarded by a debug assertion in the second
+            for su in list(suites):
+                futs[su + "@plain-release"] = ex.submit(replay_search.run_suite, su, secs, seed, False, True)
+            suites = suites + [su + "@plain-release" for su in suites]
         for su in suites:
             try:
                 r = futs[su].result()
@@ -258,7 +265,7 @@ def main():
                     "failures": fails,
                 })
             fidelity.append({"unit": n, "items": [
-                {k: it[k] for k in ("file", "item", "repo_lines", "sha256", "tokens", "hunks", "renamed_tokens", "differs_from_template")}
+                {k: it[k] for k in ("file", "item", "repo_lines", "sha256", "tokens", "hunks", "renamed_tokens", "differs_from_template", "local_renames") if k in it}
                 for it in r["items"]]})
         for h in kres["harnesses"]:
             if h.get("inconclusive"):
